@@ -162,6 +162,11 @@ func (flex *FlexEncoder03) encodeFlexFecPacket(fecPacketIndex uint32, mediaBaseS
 			tmpMediaPacketBuf = make([]byte, packetSize)
 		}
 
+		// The scratch buffer is reused between packets (and, through the pool, between calls), and
+		// MarshalTo only writes the last padding octet. Clear it so that padding octets are XORed as the
+		// zeros they are on the wire, not as leftovers of a previously marshaled packet.
+		clear(tmpMediaPacketBuf[:packetSize])
+
 		n, err := mediaPacket.MarshalTo(tmpMediaPacketBuf[:packetSize])
 		if n == 0 || err != nil {
 			return rtp.Packet{}, false
